@@ -436,8 +436,9 @@ static void upipe_h265f_stream_parse_ptl(struct upipe *upipe,
     for (int i = 0; i < max_subl_1; i++) {
         upipe_h26xf_stream_fill_bits(s, 2);
         subl_profile_present[i] = ubuf_block_stream_show_bits(s, 1);
+        ubuf_block_stream_skip_bits(s, 1);
         subl_level_present[i] = ubuf_block_stream_show_bits(s, 1);
-        ubuf_block_stream_skip_bits(s, 2);
+        ubuf_block_stream_skip_bits(s, 1);
     }
     if (max_subl_1) {
         for (int i = max_subl_1; i < 8; i++) {
